@@ -38,7 +38,7 @@ CHECKS = {
    ref='DESIGN.md 3/C09'),
  'C10': dict(
    technique='online life-cycle automaton over step() results of seeded API scripts (ASan), cross-thread cancel/receive/destroy runs and create/destroy churn with forced timer-thread windows (TSan/ASan), reset-vs-fresh trace equality; hangs with gdb stack evidence',
-   text='Exploration: 400+ API scripts over {step, receive, cancel, reset, serialize, destroy, create}; stepper blocked in step() cancelled/fed from another thread must finish with each onexit once and destruction returning; churn of short-lived interpreters with yields at the lost-wake-up window; trace(h1; reset; h2) = trace(fresh h2).',
+   text='Exploration: 400+ API scripts over {step, receive, cancel, reset, serialize, destroy, create}; stepper blocked in step() cancelled/fed from another thread must finish with each onexit once and destruction returning; churn of short-lived interpreters with yields at the lost-wake-up window; trace(h1; reset; h2) = trace(fresh h2). Also without an explicit micro-stepper (default engine path); reset() after cancel, mid-macrostep, with a history recorded by the first life, while producers call receive() (TSan/ASan), while an invoked session runs, and while the timer thread sits in a delivery; CANCELLED only after cancel().',
    note='"Always terminates" = terminated within the watchdog in every explored schedule. Unbounded liveness is outside runtime monitoring.',
    ref='DESIGN.md 3/C10'),
  'C11': dict(
@@ -54,7 +54,7 @@ CHECKS = {
 
  'C14': dict(
    technique='history + differential runtime monitor: snapshot (serialize) at every stable point of generated runs, resume (deserialize) in a fresh interpreter, both driven with the same continuation and every callback/log/configuration/data record compared; negative oracle with a foreign document; ASan/UBSan build',
-   text='Exploration: documents x histories x every stable point (with 0-2 external events still queued, and with delayed sends pending) x both engines; the resumed trace must equal the original from the first processed event on; a state string of a document differing by one comment must be rejected. Delayed sends pending at the snapshot (also cancelled by id or addressed to #_internal afterwards) must be delivered by the resumed session.',
+   text='Exploration: documents x histories x every stable point (with 0-2 external events still queued, and with delayed sends pending) x both engines; the resumed trace must equal the original from the first processed event on; a state string of a document differing by one comment must be rejected. Delayed sends pending at the snapshot (also cancelled by id or addressed to #_internal afterwards) must be delivered by the resumed session. Also: snapshots taken while delayed events are just becoming due (each must arrive exactly once after the resume) and snapshots of finished sessions (the resumed session is finished).',
    note='Trusted: recording driver vdrv. Resume prologue (step results before the first event) not compared. Invokers are not snapshotted in this check.',
    ref='DESIGN.md 3/C14'),
 
@@ -72,7 +72,7 @@ CHECKS = {
 
  'C04': dict(
    technique='differential runtime monitor on the real artefact: ChartToC output compiled (gcc -fsanitize=address,undefined,bounds and plain -O2, emitted sizing macros) and driven by a C scaffold with the same history as the interpreter; projected histories compared; sanitizer reports in the emitted step function',
-   text='Exploration: seeded random documents (+ documents padded to the byte boundaries of the sizing macros) are transpiled, compiled twice and executed; dequeued events, log lines with values, configuration after each micro step and final data must equal the interpreter trace; ASan/UBSan(bounds) watch the emitted code.',
+   text='Exploration: seeded random documents (+ documents padded to the byte boundaries of the sizing macros) are transpiled, compiled twice and executed; dequeued events, log lines with values, configuration after each micro step and final data must equal the interpreter trace; ASan/UBSan(bounds) watch the emitted code. Further families: 255/256/257 states or transitions (index types), documents whose first state invokes a larger inline machine (driven inside the scaffold, sanitizers only), <send> with <param>s read back through _event.data, <foreach>/<script>, and the delay handed to the send callback (fractions of a second, upper-case units).',
    note='Trusted: scaffold harness/genc_main.c (integer datamodel fragment, reference matcher), gcc sanitizers. Invoked (nested) machines are driven inside the scaffold with synthetic events for memory safety under the shared sizing macros; their behaviour is not compared.',
    ref='DESIGN.md 3/C04'),
  'C05': dict(
@@ -103,7 +103,7 @@ CHECKS = {
    ref='DESIGN.md 3/C03'),
  'C13': dict(
    technique='online push-down protocol checker over every InterpreterMonitor callback recorded from both engines on generated runs incl. injected failing elements, cancel scripts and top-level-final runs',
-   text='Exploration: balanced/nested brackets, phase order exits->transitions->entries, nothing outside brackets but the allowed notices, content inside its owner bracket, configuration explained by reported exits/entries, log lines inside their <log> bracket, one stable notice per macrostep.',
+   text='Exploration: balanced/nested brackets, phase order exits->transitions->entries, nothing outside brackets but the allowed notices, content inside its owner bracket, configuration explained by reported exits/entries, log lines inside their <log> bracket, one stable notice per macrostep. Further modes: states with inline invoked sessions (incl. one that cannot be started), delayed sends whose events arrive from the timer thread while the session is idle, a second monitor attached and detached while the session runs (must see exactly the first one\\'s account in between), and the lambda front end Interpreter::on() registered for all before / all after notices.',
    note='Trusted: vf/protocol.py automaton; completeness is judged against logs/configurations/events only.',
    ref='DESIGN.md 3/C13'),
  'C12': dict(
